@@ -31,6 +31,9 @@ use ractor::{Actor, ActorProcessingErr, ActorRef, ActorStatus, MessagingErr, Sup
 
 type Ev = (u32, u32, u64); // (timer id, k, virtual µs)
 
+/// the message on which the target's handler returns `Err` (the actor FAILS: `ActorFailed`, no `post_stop`)
+const POISON: (u32, u32) = (u32::MAX, u32::MAX);
+
 #[derive(Default)]
 struct Shared {
     attempts: Vec<Ev>,
@@ -106,6 +109,9 @@ impl Actor for Target {
         Ok(())
     }
     async fn handle(&self, _me: ActorRef<Self::Msg>, m: Self::Msg, _s: &mut ()) -> Result<(), ActorProcessingErr> {
+        if m == POISON {
+            return Err("poison".into());
+        }
         self.0.handled(m);
         Ok(())
     }
@@ -127,6 +133,9 @@ impl ThreadLocalActor for TlTarget {
         Ok(ctx)
     }
     async fn handle(&self, _me: ActorRef<Self::Msg>, m: Self::Msg, ctx: &mut Ctx) -> Result<(), ActorProcessingErr> {
+        if m == POISON {
+            return Err("poison".into());
+        }
         ctx.handled(m);
         Ok(())
     }
@@ -346,6 +355,9 @@ enum Op {
     Drop(usize),
     /// clock += d, then drop, before the time driver runs
     AdvDrop(u64, usize),
+    /// cast a message on which the target's handler returns `Err`
+    Fail,
+    AdvFail(u64),
 }
 
 impl Op {
@@ -378,6 +390,8 @@ impl Op {
             Op::PsRelease => "psrelease".into(),
             Op::Drop(i) => format!("drop {i}"),
             Op::AdvDrop(d, i) => format!("advdrop {d} {i}"),
+            Op::Fail => "fail".into(),
+            Op::AdvFail(d) => format!("advfail {d}"),
         }
     }
     fn parse(s: &str) -> Option<Op> {
@@ -412,6 +426,8 @@ impl Op {
             "psrelease" => Op::PsRelease,
             "drop" => Op::Drop(n(1)? as usize),
             "advdrop" => Op::AdvDrop(n(1)?, n(2)? as usize),
+            "fail" => Op::Fail,
+            "advfail" => Op::AdvFail(n(1)?),
             _ => return None,
         })
     }
@@ -631,6 +647,16 @@ async fn run_case(tl: bool, ops: &[Op]) -> Vec<String> {
             Op::Abort(i) => {
                 if let Some(t) = timers.get(*i) {
                     t.abort();
+                }
+            }
+            Op::Fail => {
+                let _ = target.cast(POISON);
+            }
+            Op::AdvFail(d) => {
+                bump_clock(*d).await;
+                let _ = target.cast(POISON);
+                if let Some(w) = tlw.as_mut() {
+                    w.run_target(now_ms(t0));
                 }
             }
             Op::Stop => target.stop(Some("manual".into())),
@@ -872,15 +898,17 @@ fn gen_case(rng: &mut Rng, st: &mut Stats) -> Vec<Op> {
         } else if r < 86 {
             Op::Abort(rng.below(n_timers as u64) as usize)
         } else if r < 91 {
-            match rng.below(3) {
+            match rng.below(4) {
                 0 => Op::AdvStop(*rng.pick(&adv)),
                 1 => Op::AdvKill(*rng.pick(&adv)),
+                2 => Op::AdvFail(*rng.pick(&adv)),
                 _ => Op::AdvDrain(*rng.pick(&adv)),
             }
         } else {
-            match rng.below(3) {
+            match rng.below(4) {
                 0 => Op::Stop,
                 1 => Op::Kill,
+                2 => Op::Fail,
                 _ => Op::Drain,
             }
         };
@@ -915,6 +943,7 @@ fn ms_case(ops: Vec<Op>) -> Vec<Op> {
             AdvKill(d) => AdvKill(d * 1000),
             AdvDrain(d) => AdvDrain(d * 1000),
             AdvDrop(d, i) => AdvDrop(d * 1000, i),
+            AdvFail(d) => AdvFail(d * 1000),
             o => o,
         })
         .collect()
@@ -998,6 +1027,23 @@ fn fixed_cases() -> Vec<Vec<Op>> {
         vec![Hold, Stop, Xsi(2), Xsa(1), Adv(2), PsRelease],
         vec![Xsi(0)],
         vec![Xsi(3), Adv(40)],
+        // the target FAILS (handler returns Err): no post_stop, ActorFailed; timers find a dead target
+        vec![Sa(5), Fail, Adv(5)],
+        vec![Si(3), Adv(3), Fail, Adv(3), Adv(3)],
+        vec![Sa(5), AdvFail(5), Adv(1)],
+        vec![Sa(5), Adv(5), Fail, Abort(0)],
+        vec![Hold, Si(2), Fail, Adv(2), PsRelease],
+        vec![Hold, Stop, Fail, Sa(1), Adv(1), PsRelease],
+        vec![Ea(5), AdvFail(5), Adv(1)],
+        vec![Ea(5), Ka(5), Sa(5), Adv(4), Fail, Adv(1)],
+        vec![Ka(2), Fail, Adv(2)],
+        vec![Fail, Sa(0), Si(1), Ea(0), Ka(0), Adv(1)],
+        vec![Stop, Fail, Sa(0)],
+        vec![Drain, Fail, Sa(0)],
+        vec![Fail, Fail, Kill],
+        vec![Xsa(2), Xsi(1), Fail, Adv(2)],
+        vec![Sa(2), Si(1), Drop(0), Drop(1), Fail, Adv(2)],
+        vec![Dsa(5), Dsi(3), Csa(5), AdvFail(3), Adv(2), Adv(3)],
         // send_interval(Duration::ZERO): tokio's interval() panics inside the spawned task
         vec![Si(0)],
         vec![Dsi(0)],
@@ -1085,6 +1131,7 @@ fn fixed_cases() -> Vec<Vec<Op>> {
         vec![Adv(1500), Csa(700), Cka(1500), Adv(500), Adv(500), Adv(500), Adv(500)],
         vec![Csi(300), Adv(500), Adv(500), Adv(1000)],
         vec![Xsi(300), Xsa(700), Adv(500), Adv(500), Adv(1000)],
+        vec![Si(700), Sa(1500), AdvFail(1400), Adv(100), Adv(600)],
         vec![Adv(1500), Xsi(700), Xsa(2500), Adv(500), Adv(500), Adv(500), Adv(2000)],
         // period 0 off the millisecond grid: the wheel rounds the deadline up like any other
         vec![Adv(1500), Sa(0), Ka(0), Adv(499), Adv(1)],
@@ -1216,6 +1263,9 @@ fn main() {
                     }
                     if o.contains("Stopped:") {
                         st.bump("obs_target_stopped");
+                    }
+                    if o.contains("<failed>") {
+                        st.bump("obs_target_failed");
                     }
                     if o.contains("PostStop@") {
                         st.bump("obs_target_in_post_stop");
